@@ -343,7 +343,17 @@ def _collect_elements():
 ELEMENTS = _collect_elements()
 
 
+_ET = None
+
+
 def element_types():
+    global _ET
+    if _ET is None:
+        _ET = _element_types()
+    return _ET
+
+
+def _element_types():
     """name -> set of type keys declared for that element name anywhere in the partwise schema"""
     d = {}
     for name, tkey, ctx in ELEMENTS:
